@@ -1116,6 +1116,12 @@ def check_user_precedence():
     r = run_import("emmodel", "rayleigh", [{"emmodel.iba": ["Mine"]}])
     if r != "cls 1 Rayleigh":
         return ("plugin:user-precedence", f"a registered package without emmodel.rayleigh changes its resolution: {r}", "smrt's Rayleigh")
+    # a user package that only provides emmodel/ (the usual case): every shipped name of the other scopes still resolves to smrt's class
+    for scope, mod, cls in (("rtsolver", "dort", "DORT"), ("interface", "flat", "Flat"), ("substrate", "flat", "Flat"),
+                            ("microstructure_model", "exponential", "Exponential"), ("atmosphere", "simple_isotropic_atmosphere", "SimpleIsotropicAtmosphere")):
+        r = run_import(scope, mod, [{"emmodel.iba": ["Mine"]}])
+        if r != f"cls 1 {cls}":
+            return ("plugin:user-precedence", f"with a registered package that only has emmodel/, import_class('{scope}', '{mod}') gives {r}", f"smrt's {cls}")
     return None
 
 
